@@ -1,6 +1,7 @@
 import DateutilVerif.Properties.C05
 import DateutilVerif.Properties.TzObjGen   -- translator tie (wt-iso): tzlocal
 import DateutilVerif.Properties.TzGen   -- translator tie (wt-iso): obligations about the re-translated lookup functions
+import DateutilVerif.Properties.TzHelpGen   -- translator tie for the module-level helpers (wt-tzfile)
 #print axioms C05.mem_pre_iff
 #print axioms C05.pre_card_le_two
 #print axioms C05.ambiguous_iff
@@ -27,3 +28,14 @@ import DateutilVerif.Properties.TzGen   -- translator tie (wt-iso): obligations 
 #print axioms C05.explicit_tz_wins
 #print axioms C05.gen_eq_model_tzlocal_is_ambiguous
 #print axioms C05.gen_eq_model_tzlocal_isdst
+-- translator tie for the helpers (wt-tzfile): Gen.datetimeExists / datetimeAmbiguous / resolveImaginary (Generated/TzHelpKernels.lean) = helper models
+#print axioms C05.gen_datetime_exists_eq_model
+#print axioms C05.gen_datetime_ambiguous_eq_model
+#print axioms C05.gen_datetime_ambiguous_fallback
+#print axioms C05.gen_resolve_imaginary_eq_model
+#print axioms C05.gen_datetime_exists_utc
+#print axioms C05.exists_iff_helper
+#print axioms C05.exists_iff_helper_aware
+#print axioms C05.ambiguous_iff_helper
+#print axioms C05.resolve_imaginary_gap_helper
+#print axioms C05.resolve_imaginary_of_exists_helper
